@@ -123,6 +123,20 @@ impl Gen {
 
     pub fn mtime(&mut self, cfg: &GenCfg) -> (i64, u32) {
         self.clock += 1 + self.r.below(50) as i64;
+        if cfg.pre_epoch && self.r.chance(1, 10) {
+            // the seconds around the epoch, where "floor" and "truncate" part ways
+            return *self.r.pick(&[
+                (-1i64, 1u32),
+                (-1, 999_999_999),
+                (-1, 500_000_000),
+                (-1, 0),
+                (0, 0),
+                (0, 1),
+                (-2, 999_999_999),
+                (-2, 1),
+                (1, 0),
+            ]);
+        }
         let era: i64 = if cfg.pre_epoch && self.r.chance(2, 5) {
             *self.r.pick(&[-1_000_000_000i64, -200_000, -(1i64 << 33), -1_000_000_000])
         } else {
@@ -398,6 +412,21 @@ impl Gen {
                         continue;
                     }
                 }
+                // the property's precondition: new content always comes with a new mtime or a
+                // new size (fixed edge mtimes could otherwise repeat)
+                let e = match e {
+                    EditOp::Put { path, mut node } => {
+                        if let (NodeKind::File { size, cseed }, Some(old)) = (&node.kind, m.nodes.get(&path)) {
+                            if let NodeKind::File { size: osize, cseed: oseed } = &old.kind {
+                                if osize == size && oseed != cseed && old.meta.mtime == node.meta.mtime {
+                                    node.meta.mtime.1 = (node.meta.mtime.1 + 1) % 1_000_000_000;
+                                }
+                            }
+                        }
+                        EditOp::Put { path, node }
+                    }
+                    other => other,
+                };
                 if m.apply(&e) {
                     out.push(e);
                 }
